@@ -26,6 +26,7 @@ inductive Desc
   | echo (v : Nat) (oneway : Bool)
   | fail (oneway : Bool)
   | sub (n : Nat) (pat : Nat)   -- stream of `n` items; `pat` = which `continues` flags the service puts on them
+  | unser (oneway : Bool)       -- the service answers with a reply that cannot be serialized (`send_reply` fails before anything is written)
   | garbage
 deriving Repr, Inhabited, DecidableEq
 
@@ -60,6 +61,7 @@ structure S where
   listenQ : List Conn
   dead : List Conn
   served : List (Nat × Desc)   -- ghost log: (connection id, call) in the order the service was invoked
+  wlog : List Nat := []        -- ghost log: the client of every transport write, in the global order of the writes
 deriving Inhabited
 
 def swapRemove {α} (l : List α) (i : Nat) : List α :=
@@ -98,6 +100,7 @@ def answer : Desc → List Tok
   | .echo v ow => if ow then [] else [.R v]
   | .fail ow => if ow then [] else [.E]
   | .sub n p => (itemsOf n p).map tokOf
+  | .unser _ => []
   | .garbage => []
 
 /-- sequential per-connection reference -/
@@ -142,11 +145,14 @@ def iter (C : Consts) (sizes : Nat → Nat) (s : S) : Option S :=
           | .sub m pat =>
             some { s with conns := swapRemove s.conns idx, streams := s.streams ++ [(itemsOf m pat, c)],
                           served := s.served ++ [(c.id, d)] }
+          | .unser false =>
+            -- `send_reply` fails while serializing: nothing reaches the transport, the connection is dropped
+            some { s with conns := swapRemove s.conns idx, dead := c :: s.dead, served := s.served ++ [(c.id, d)] }
           | d =>
             let s := { s with served := s.served ++ [(c.id, d)] }
             if answer d = [] then some { s with conns := s.conns.set idx c }
             else match writeTo c (answer d) with
-              | some c' => some { s with conns := s.conns.set idx c' }
+              | some c' => some { s with conns := s.conns.set idx c', wlog := s.wlog ++ [c.id] }
               | none => some { s with conns := swapRemove s.conns idx, dead := c :: s.dead }
       | _ => some { s with conns := swapRemove s.conns idx, dead := c :: s.dead }
     | none =>
@@ -165,7 +171,7 @@ def iter (C : Consts) (sizes : Nat → Nat) (s : S) : Option S :=
         | [] => some { s with streams := swapRemove s.streams idx, conns := s.conns ++ [c] }
         | p :: rest =>
           match writeTo c [tokOf p] with
-          | some c' => some { s with streams := s.streams.set idx (rest, c') }
+          | some c' => some { s with streams := s.streams.set idx (rest, c'), wlog := s.wlog ++ [c.id] }
           | none => some { s with streams := swapRemove s.streams idx, dead := c :: s.dead }
 
 /-! ### environment events -/
@@ -202,7 +208,7 @@ def step (C : Consts) (sizes : Nat → Nat) (s : S) : Ev → S
 
 def S.all (s : S) : List Conn := s.conns ++ s.listenQ ++ s.streams.map (·.2) ++ s.dead
 
-def init : S := { conns := [], streams := [], lastCall := none, lastStream := none, listenQ := [], dead := [], served := [] }
+def init : S := { conns := [], streams := [], lastCall := none, lastStream := none, listenQ := [], dead := [], served := [], wlog := [] }
 
 def runEvs (C : Consts) (sizes : Nat → Nat) : List Ev → S → S
   | [], s => s
